@@ -98,7 +98,7 @@ def _work(args):
     lang, seeds, opts = args
     out = []
     for seed in seeds:
-        p = progen.generate(seed, lang, opts)
+        p = progen.generate(seed, lang, dict(opts or {}, dup_names=(seed % 3 == 0)))
         text = p["text"]
         r = LC.guarded(lambda: LC.impl_scan(lang, text))
         exp = [[e["name"], e["start"], e["end"], e["length"]] for e in p["expected"]]
@@ -139,7 +139,7 @@ def _work(args):
 def run(tier, seed, replay=None):
     assert_repo_import()
     chk = Check("C01", tier, seed)
-    model_ok = chk.proof_stage(["Scope/ScanFile.vo", "Scope/SpecProofs.vo", "Scope/SpecCheck.vo", "Scope/HeaderProofs.vo", "Scope/ShapeProofs.vo", "Scope/SpecCheckAll.vo", "Scope/PyLexical.vo", "Scope/TieProofs.vo", "Scope/GrammarProofs.vo"])
+    model_ok = chk.proof_stage(["Scope/ScanFile.vo", "Scope/SpecProofs.vo", "Scope/SpecCheck.vo", "Scope/HeaderProofs.vo", "Scope/ShapeProofs.vo", "Scope/SpecCheckAll.vo", "Scope/PyLexical.vo", "Scope/TieProofs.vo", "Scope/GrammarProofs.vo", "Scope/GrammarAllProofs.vo", "Scope/PyGrammarProofs.vo"])
     n_prog = 400 if tier == "quick" else 12000
     base = seed * 1000003
     jobs = []
